@@ -12,6 +12,12 @@
 #            the other target, in an array that feeds no target, nowhere) and pairs of names, x every way of writing the
 #            two lists (direct strings / array / array + strings / variable / files() / sources: kwarg  x  array / variable /
 #            files() / one bare string / absent): the command edits the list it addresses and nothing else.
+#   layer D  placement of the pieces: the target call in the root build file or in a sub-directory x every way of writing its lists
+#            (strings / files() in the call, array variable, files('a', ..) variable, files([..]) variable) x the build file that
+#            defines them (the target's own, the parent's, a sibling directory entered earlier), source files living in four
+#            directories; every list command with names given from the source root (new file in each directory, every existing
+#            file, add twice, add.rm, rm.add, several names), run inside the source root and from outside with --sourcedir.
+#            Oracle: reference evaluation of the whole project (verif.c17place), `info`, files on disk.
 # Oracle (per process run): (1) touched file parses (real parser and reference parser E6); (2) the addressed call has
 # exactly the requested value (reference evaluation of the file, and the rewriter's own `info` JSON); (3) every byte
 # outside the statements the command may edit is unchanged; (4) every other argument of a re-printed statement keeps
@@ -20,6 +26,7 @@ import itertools, json, os, re, shutil, sys, traceback
 from verif.core import Check, pmap, run_main, scratch_root, REPO
 from verif import reflang, mesonproc
 from verif import c17lib as L
+from verif import c17place as P
 from verif.c17lib import FAILM, UNSPECM
 from verif.reflang import Fail, Unspecified, SyntaxFail, strip_parens
 
@@ -1129,7 +1136,8 @@ def new_counters():
     return {k: 0 for k in ('skipped_unspecified', 'refusals', 'info_cmds', 'text_unchanged', 'unparsable', 'edited_statements',
                            'program_level_skipped', 'program_level_compared', 'domain_capped', 'domain_evaluations',
                            'skipped_unspecified_env', 'value_changes', 'info_skipped_unknown', 'info_compared', 'processes',
-                           'observer_runs', 'steps', 'crlf_inputs', 'crash_located', 'others_only_compared', 'raw_cr_written')}
+                           'observer_runs', 'steps', 'crlf_inputs', 'crash_located', 'others_only_compared', 'raw_cr_written',
+                           'place_existence_checked')}
 
 
 def run_rewrite(d, argv, cold=False):
@@ -1140,6 +1148,8 @@ def run_rewrite(d, argv, cold=False):
 
 def run_case(case, cold=False):
     """Executes the real rewriter for one case and decides every clause.  Returns plain data."""
+    if case.get('layer') == 'D':
+        return run_place_case(case, cold)
     _case_counter[0] += 1
     d = os.path.join(scratch_root(), 'c17', '%d.%d' % (os.getpid(), _case_counter[0]))
     os.makedirs(d)
@@ -1655,6 +1665,319 @@ def layer_c(ck, stats):
 
 
 # =========================================================================================================
+# Layer D: where the pieces live.  The target call, the assignments its lists are built from and the source files are spread
+# over the build files of several directories (verif.c17place).  A list command names files relative to the source root
+# (Rewriter.md: "assumes that it is run inside the project root directory. If this isn't the case, use --sourcedir"; the
+# `info` output lists paths from the source root); the strings the rewriter writes are relative to the directory in which
+# the edited list is RESOLVED (the target's for strings and arrays, the files() call's for files()).  Oracle per step:
+# exit status 0; only the statement of the call / the assignments of the addressed list changed, every other build file is
+# byte-identical; every build file parses; the reference evaluation of the whole project gives the addressed target
+# exactly the requested set (other arguments, the other list and the other target unchanged); every file the target now
+# names exists on disk (all files a command names were created beforehand); `info` reports the same set.
+PLACE_OPS = ('src_add', 'src_rm', 'extra_files_add', 'extra_files_rm')
+
+
+def place_text(build):
+    return ''.join('### %s\n%s' % (k, build[k]) for k in sorted(build))
+
+
+def place_chains(place, full):
+    """[(family, [commands])]: each chain is run step by step (one CLI process per command), every step is checked."""
+    g = P.generate(place)
+    td, dd, rd = P.place_dirs(place)
+    src, xf = g['sources'], g['extra_files']
+    out = []
+    add = lambda fs: c_target('prog', 'src_add', fs)
+    rm = lambda fs: c_target('prog', 'src_rm', fs)
+    xadd = lambda fs: c_target('prog', 'extra_files_add', fs)
+    xrm = lambda fs: c_target('prog', 'extra_files_rm', fs)
+    # a new file in each directory class: add it, add it again (nothing to do), remove it (the original set is back)
+    for k, d in enumerate(('root', 'sub', 'early', 'lib')):
+        n = P.NEW_SRC[d]
+        out.append(('add.add.rm' if (full or k == 0) else 'add.rm', [add([n])] + ([add([n])] if (full or k == 0) else []) + [rm([n])]))
+    # every existing file: remove it, add it back (the set is kept)
+    # every existing file (quick: the one below the resolving directory is removed by `rm-several` only)
+    for e in src:
+        if full or e != P.under(rd, 'deep/d.c'):
+            out.append(('rm.add', [rm([e]), add([e])]))
+    out.append(('add-existing', [add([P.under(rd, 'a.c')])]))
+    out.append(('rm-foreign', [rm([P.FOREIGN_SRC])] if P.FOREIGN_SRC not in src else [rm([P.NEW_SRC['lib']])]))
+    out.append(('add-several', [add([P.NEW_SRC['lib'], P.NEW_SRC['root'], P.NEW_SRC['sub'], P.NEW_SRC['below']])]))
+    out.append(('rm-several', [rm([P.under(td, 'main.c'), P.under(rd, 'deep/d.c')])]))
+    for d in (('root', 'sub', 'early', 'lib') if full else ('sub', 'lib')):
+        out.append(('xadd.xrm', [xadd([P.NEW_XF[d]]), xrm([P.NEW_XF[d]])]))
+    for e in (xf if full else xf[:1] + xf[-1:]):
+        out.append(('xrm.xadd', [xrm([e]), xadd([e])]))
+    return out
+
+
+def place_expected(t, cmd):
+    """(sources, extra_files) the addressed target must have after the command (sorted, from the source root)."""
+    src, xf = list(t.sources), list(t.extra_files)
+    files = [os.path.normpath(f) for f in cmd['sources']]
+    cur = src if cmd['operation'].startswith('src') else xf
+    if len(set(cur)) != len(cur):
+        raise ModelUnspecified('a file is listed twice')
+    if cmd['operation'].endswith('_add'):
+        for f in sorted(set(files)):
+            if f not in cur:
+                cur.append(f)
+    else:
+        for f in files:
+            if f in cur:
+                cur.remove(f)
+    return tuple(sorted(src)), tuple(sorted(xf))
+
+
+def run_place_tool(d, mode, argv, cold):
+    """mode 'root': run inside the source root without --sourcedir (the documented default); 'outside': from an empty
+    directory next to it with --sourcedir."""
+    fn = mesonproc.cold_meson if cold else mesonproc.run_meson
+    if mode == 'root':
+        r = fn(['rewrite'] + argv, os.path.join(d, 'proj'))
+    else:
+        r = fn(['rewrite', '--sourcedir', os.path.join(d, 'proj')] + argv, os.path.join(d, 'cwd'))
+    return {'rc': r.rc, 'out': r.out, 'unhandled': r.unhandled, 'signaled': r.signaled}
+
+
+def read_build(root, paths):
+    out = {}
+    for p in paths:
+        with open(os.path.join(root, p), 'r', encoding='utf-8', newline='') as f:
+            out[p] = f.read()
+    return out
+
+
+def place_tag(place):
+    return '%s-list@%s' % ('files' if place[2] in ('files', 'files-arr', 'inline-files') else 'string', place[1])
+
+
+def place_call_and_nested(lv, cmd, td):
+    """The removal names a string written directly in the call AND a string of an array / files() nested in the same call."""
+    hit = P.target_call(lv, cmd['target'])
+    if hit is None:
+        return False
+    files = [os.path.normpath(f) for f in cmd['sources']]
+    direct = nested = False
+    for a in hit[2][2][1:]:
+        a = L.unparen(a)
+        if a[0] == 'str':
+            direct = direct or P.under(td, a[1]) in files
+        else:
+            nested = nested or any(P.under(td, x[1]) in files for x in L.literal_items(a))
+    return direct and nested
+
+
+def check_place_step(case, cmd, b0, b1, res, root, counters):
+    """Clauses of one list command on a multi-directory project.  Returns ([(key, what)], state after or None)."""
+    place = tuple(case['place'])
+    op = cmd['operation']
+    where = '%s, project %s' % (op + ' ' + ' '.join(cmd['sources']), '/'.join(place))
+    pre = 'C17:placement:%s:' % op
+    if res['unhandled'] or res['signaled']:
+        return [(pre + 'crash:' + exc_name(res['out']), '%s died: %s' % (where, res['out'].strip().splitlines()[-3:]))], None
+    if res['rc'] != 0:
+        return [(pre + 'refused', '%s failed with exit status %d: %s' % (where, res['rc'], res['out'].strip()[-300:]))], None
+    try:
+        lv0 = P.leaves_of(b0)
+        s0 = {t.name: t for t in P.evaluate(b0)}
+    except (SyntaxFail, Fail, Unspecified) as e:
+        return [('C17:internal:unreadable-input', 'reference cannot read the input of this step: %s' % e)], None
+    # ---- locality over all build files
+    which = 'sources' if op.startswith('src') else 'extra_files'
+    may = P.editable(lv0, 'prog', which)
+    edited_files = []
+    for path in sorted(b0):
+        if b1[path] == b0[path]:
+            continue
+        edited_files.append(path)
+        allowed = {i for p, i in may if p == path}
+        if not allowed:
+            return [(pre + 'other-file-changed', '%s changed %s, which holds neither the target call nor an assignment its %s are built '
+                     'from' % (where, path, which))], None
+        runs, why = L.skeleton_match(b0[path], b1[path], lv0[path], allowed, False)
+        if runs is None:
+            if op == 'src_rm' and place_call_and_nested(lv0, cmd, P.TDIRS[place[0]]):
+                # the defect layer C knows: two extents, one inside the other, re-printed by one command
+                return [('C17:locality:other-text-changed:call-and-nested-list-edited-by-one-command', '%s, in %s: %s' % (where, path, why))], None
+            return [(pre + 'other-text-changed', '%s, in %s: %s' % (where, path, why))], None
+        counters['edited_statements'] += sum(1 for _, text in runs if text.strip())
+    if not edited_files:
+        counters['text_unchanged'] += 1
+    # ---- every build file parses
+    for path in edited_files:
+        perr = real_parse_error(b1[path])
+        if perr:
+            counters['unparsable'] += 1
+            return [(pre + 'unparsable', '%s left %s unparsable: %s' % (where, path, perr))], None
+    try:
+        s1l = P.evaluate(b1)
+    except SyntaxFail as e:
+        counters['unparsable'] += 1
+        return [(pre + 'unparsable', '%s: the reference parser rejects an edited file: %s' % (where, e))], None
+    except (Fail, Unspecified) as e:
+        return [(pre + 'no-longer-evaluates', '%s: the project evaluated before and does not now: %s' % (where, e))], None
+    s1 = {t.name: t for t in s1l}
+    # ---- value
+    V = []
+    try:
+        exp_src, exp_xf = place_expected(s0['prog'], cmd)
+    except ModelUnspecified:
+        counters['skipped_unspecified'] += 1
+        return [], s1
+    counters['program_level_compared'] += 1
+    if sorted(s1) != sorted(s0):
+        return [(pre + 'target-set', '%s: the project now defines %s' % (where, sorted(s1)))], None
+    got = s1['prog']
+    diff = ' | '.join('%s: %s' % (p, ' '.join(ln.strip() for ln in b1[p].splitlines() if ln not in b0[p].splitlines())) for p in edited_files)
+    for name, e, g_, o in (('sources', exp_src, got.sources, s0['prog'].sources), ('extra_files', exp_xf, got.extra_files, s0['prog'].extra_files)):
+        if e != g_:
+            addressed = name == which
+            missing = [f for f in g_ if not os.path.exists(os.path.join(root, f))]
+            key = pre + (name if addressed else 'collateral-' + name) + ':' + place_tag(place)
+            if case['cwd'] == 'root' and place[0] != 'root' and addressed:
+                # would the result be right for the names taken relative to the target's directory?
+                alt = dict(cmd, sources=[os.path.relpath(f, P.TDIRS[place[0]]) for f in cmd['sources']])
+                if place_expected(s0['prog'], alt)[0 if name == 'sources' else 1] == g_:
+                    key = 'C17:placement:run-in-source-root:name-rebased-on-target-dir'
+            V.append((key, '%s (run %s): the %s of prog are %s, requested %s (before: %s)%s; edit: %s'
+                      % (where, 'inside the source root' if case['cwd'] == 'root' else 'with --sourcedir', name, list(g_), list(e), list(o),
+                         '; named but not on disk: %s' % missing if missing else '', diff)))
+    if got.other != s0['prog'].other or got.dir != s0['prog'].dir or got.func != s0['prog'].func:
+        V.append((pre + 'collateral-arguments', '%s: another argument of the call changed its value' % where))
+    for n in s0:
+        if n != 'prog' and s1[n] != s0[n]:
+            V.append((pre + 'other-target-changed', '%s: target %s, which the command does not address, changed: %s -> %s' % (where, n, s0[n], s1[n])))
+    if V:
+        return V, None
+    # ---- end to end: what the build definition names is on disk
+    counters['place_existence_checked'] += 1
+    missing = [f for f in got.sources + got.extra_files if not os.path.exists(os.path.join(root, f))]
+    if missing:
+        return [(pre + 'names-missing-file', '%s: the target now names %s, not on disk' % (where, missing))], None
+    return [], s1
+
+
+def check_place_info(case, out, t, counters):
+    try:
+        data = json.loads(out[out.index('{'):])
+    except (ValueError, json.JSONDecodeError):
+        return [('C17:info:no-json', 'info printed no JSON: %r' % out[:200])]
+    ent = [v for v in data.get('target', {}).values() if v.get('name') == t.name]
+    if len(ent) != 1:
+        return [('C17:info:target-missing', 'target info has no entry for %s' % t.name)]
+    V = []
+    for field, want in (('sources', t.sources), ('extra_files', t.extra_files)):
+        counters['info_compared'] += 1
+        got = sorted(os.path.normpath(x) for x in ent[0][field])
+        if got != sorted(want):
+            V.append(('C17:placement:info:' + field + ':' + place_tag(tuple(case['place'])),
+                      'project %s: info reports %s=%r, the build files say %r (paths from the source root)'
+                      % ('/'.join(case['place']), field, got, list(want))))
+    return V
+
+
+def run_place_case(case, cold=False):
+    _case_counter[0] += 1
+    d = os.path.join(scratch_root(), 'c17', 'd%d.%d' % (os.getpid(), _case_counter[0]))
+    root = os.path.join(d, 'proj')
+    counters = new_counters()
+    viol = []
+    g = P.generate(tuple(case['place']))
+    texts = [place_text(g['build'])]
+    try:
+        os.makedirs(os.path.join(d, 'cwd'))
+        for rel, text in g['build'].items():
+            os.makedirs(os.path.dirname(os.path.join(root, rel)), exist_ok=True)
+            with open(os.path.join(root, rel), 'w', encoding='utf-8', newline='') as f:
+                f.write(text)
+        named = [os.path.normpath(f) for c in case['cmds'] for f in c['sources']]
+        for rel in sorted(set(g['disk']) | set(named)):
+            os.makedirs(os.path.dirname(os.path.join(root, rel)), exist_ok=True)
+            with open(os.path.join(root, rel), 'w') as f:
+                f.write('/* %s */\n' % rel)
+        b0 = dict(g['build'])
+        state = None
+        if case.get('info_first'):
+            res = run_place_tool(d, case['cwd'], to_cli(c_target('prog', 'info')), cold)
+            counters['processes'] += 1
+            counters['info_cmds'] += 1
+            if res['rc'] != 0 or res['unhandled']:
+                viol.append(('C17:info:failed', 'info on the generated project failed: %s' % res['out'].strip()[-300:]))
+            else:
+                viol += check_place_info(case, res['out'], {t.name: t for t in P.evaluate(b0)}['prog'], counters)
+        for cmd in ([] if viol else case['cmds']):
+            res = run_place_tool(d, case['cwd'], to_cli(cmd), cold)
+            counters['processes'] += 1
+            counters['steps'] += 1
+            b1 = read_build(root, sorted(b0))
+            texts.append(place_text(b1))
+            v, state = check_place_step(case, cmd, b0, b1, res, root, counters)
+            if not v and b1 != b0:
+                res = run_place_tool(d, case['cwd'], to_cli(c_target('prog', 'info')), cold)
+                counters['processes'] += 1
+                counters['observer_runs'] += 1
+                if res['rc'] != 0 or res['unhandled']:
+                    v = [('C17:info:failed', 'info on the rewritten project failed: %s' % res['out'].strip()[-300:])]
+                elif read_build(root, sorted(b0)) != b1:
+                    v = [('C17:info-modified-file', 'an info command changed a build file')]
+                else:
+                    v = check_place_info(case, res['out'], state['prog'], counters)
+            if v:
+                viol += v
+                break
+            b0 = b1
+    finally:
+        shutil.rmtree(d, ignore_errors=True)
+    return {'id': case['id'], 'viol': viol, 'counters': counters, 'final': texts[-1], 'texts': texts if viol else None}
+
+
+def layer_d(ck, stats):
+    """Quick: every placement with the full chain set in one working-directory mode (target in the root file: run inside the
+    source root; target in a sub-directory: run from outside with --sourcedir) and, for sub-directory targets, the single
+    commands run inside the source root.  Thorough: every chain in both modes."""
+    cases = []
+    n = {k: 0 for k in ('placements', 'chains', 'steps', 'list_in_other_file', 'list_resolved_in_other_dir_than_target',
+                        'target_in_subdir', 'run_inside_source_root', 'run_with_sourcedir', 'named_file_in_target_dir',
+                        'named_file_in_defining_dir', 'named_file_in_third_dir')}
+    for place in P.all_places():
+        td, dd, rd = P.place_dirs(place)
+        n['placements'] += 1
+        modes = ['root', 'outside'] if ck.thorough else (['root'] if td == '' else ['outside', 'root'])
+        for mi, mode in enumerate(modes):
+            chains = place_chains(place, ck.thorough)
+            if not ck.thorough and mi == 1:
+                # the second mode: first command of the chains that add / remove one file
+                # (a file in the target's directory and one elsewhere for add / rm, one file for the extra_files operations)
+                seen, short = set(), []
+                for fam, cmds in chains:
+                    c = cmds[0]
+                    k = (c['operation'], os.path.dirname(c['sources'][0]) == td if c['operation'].startswith('src') else None)
+                    if len(c['sources']) == 1 and k not in seen:
+                        seen.add(k)
+                        short.append((fam.split('.')[0], cmds[:1]))
+                chains = short
+            for ci, (fam, cmds) in enumerate(chains):
+                cid = 'D/%s/%s/%s' % ('/'.join(place), mode, ','.join('%s:%s' % (CLI_TOP[c['operation']], '+'.join(c['sources'])) for c in cmds))
+                cases.append({'id': cid, 'layer': 'D', 'family': 'place:' + fam, 'place': list(place), 'cwd': mode, 'cmds': cmds, 'form': 'cli',
+                              'text': place_text(P.generate(place)['build']), 'info_first': ci == 0})
+                n['chains'] += 1
+                n['steps'] += len(cmds)
+                n['list_in_other_file'] += dd != td
+                n['list_resolved_in_other_dir_than_target'] += rd != td
+                n['target_in_subdir'] += td != ''
+                n['run_inside_source_root' if mode == 'root' else 'run_with_sourcedir'] += 1
+                for c in cmds:
+                    for f in c['sources']:
+                        fd = os.path.dirname(os.path.normpath(f))
+                        n['named_file_in_target_dir'] += fd == td
+                        n['named_file_in_defining_dir'] += fd == dd and dd != td
+                        n['named_file_in_third_dir'] += fd not in (td, dd)
+    stats.update(n)
+    return cases
+
+
+# =========================================================================================================
 def main():
     ck = Check('C17', 'exploration')
     if ck.args.replay:
@@ -1670,6 +1993,9 @@ def main():
     cstats = {}
     if ck.want('C'):
         cases += layer_c(ck, cstats)
+    dstats = {}
+    if ck.want('D'):
+        cases += layer_d(ck, dstats)
     by_id = {c['id']: c for c in cases}
     ck.require(len(by_id) == len(cases), 'case ids are not unique')
     total = new_counters()
@@ -1700,7 +2026,7 @@ def main():
                 if sorted(k for k, _ in r2['viol']) != sorted(k for k, _ in r['viol']):
                     ck.internal('nondeterministic verdict for %s: %r vs %r' % (c['id'], r['viol'], r2['viol']))
             ck.violation(key, '[%s] %s' % (c['id'], what),
-                         {'case': {k: c[k] for k in ('id', 'text', 'cmds', 'form', 'layer', 'family') if k in c},
+                         {'case': {k: c[k] for k in ('id', 'text', 'cmds', 'form', 'layer', 'family', 'place', 'cwd', 'info_first') if k in c},
                           'observe': c.get('observe', False), 'texts': r['texts']})
     # cold re-validation of a slice: the fork runner must be faithful to a fresh `python meson.py`
     cold_n = 0
@@ -1720,11 +2046,12 @@ def main():
                 hist.setdefault(key, []).append(c['id'])
         for key in sorted(hist):
             print('HIST %5d %s   e.g. %s' % (len(hist[key]), key, hist[key][0]))
-    for k in ('A', 'B', 'C'):
+    for k in ('A', 'B', 'C', 'D'):
         sub = [c for c in cases if c['layer'] == k]
         ck.part('layer' + k, cases=len(sub))
     ck.part('layerA', **stats)
     ck.part('layerC', **cstats)
+    ck.part('layerD', **dstats)
     ck.part('counters', **total)
     ck.sample({'case': cases[0]['id'], 'cmd': cases[0]['cmds']})
     if len(cases) > 1:
